@@ -1636,6 +1636,8 @@ def do_define_cmake(line: str, confdata: 'ConfigurationData', at_only: bool,
         return ' '.join(define_value)
 
     arr = line[1:].split()
+    if len(arr) < 2:
+        raise MesonException('#cmakedefine does not contain a variable name: %s' % line.strip())
 
     if len(arr) != 2 and subproject is not None:
         from ..interpreterbase.decorators import FeatureNew
